@@ -12,7 +12,7 @@ KINDS = ['perm', 'perm', 'perm', 'word', 'perm', 'worddup', 'perm', 'addonly']
 
 
 def run(ctx):
-    return mc.generic_run(ctx, 'C12', KINDS, n_quick=12, n_thorough=400)
+    return mc.generic_run(ctx, 'C12', KINDS, n_quick=40, n_thorough=400)
 
 
 def replay(ctx, payload):
